@@ -224,6 +224,13 @@ def run_shard(ctx):
                 denom = Probability(Distribution(children=tuple(sub)))
             else:
                 denom = ge.build_raw(ge.rand_prob(rng, names, OPTS))
+            if i % 3 == 0 and len(ch) >= 3:
+                # conditioned numerators / denominators (parents equal, nested or unrelated)
+                kids, pars = ch[:-1], ch[-1:]
+                k2 = rng.randint(1, len(kids) - 1) if len(kids) > 1 else 1
+                numer = p._new(Distribution(children=tuple(kids), parents=tuple(pars)))
+                denom = p._new(Distribution(children=tuple(rng.sample(kids, k2)),
+                                            parents=rng.choice([tuple(pars), (), tuple(pars)])))
             fr = Fraction(numer, denom)
             _call(ctx, "contract", lambda: contract(fr), ge.to_src(fr), lambda res: res != fr, {"e": fr})
             wrapped = rng.choice([
